@@ -25,10 +25,12 @@ Definition cv_ops (c : M7.cv) : list op :=
   | M7.CShielded M7.Orchard v _ => [OChange v]       (* wallet change: add_orchard_change_output *)
   | M7.CShielded M7.Ironwood v _ => [IOut v]
   | M7.CTransparent v => [TOut v false]
-  | M7.CEphemeral _ => []
+  | M7.CEphemeral v => [TOut v false]           (* the ephemeral output of a ZIP 320 first step *)
   end.
-Definition ops_of (x : M7.txin) (chg : list M7.cv) : list op :=
-  map (fun i => TIn (fst i)) (M7.t_in x) ++ map tout_op (M7.t_out x)
+(** an ephemeral input (second step of a ZIP 320 pair) is one more P2PKH input *)
+Definition ein_ops (e : option M7.eph) : list op := match e with Some (M7.EphIn v) => [TIn v] | _ => [] end.
+Definition ops_of (e : option M7.eph) (x : M7.txin) (chg : list M7.cv) : list op :=
+  map (fun i => TIn (fst i)) (M7.t_in x) ++ ein_ops e ++ map tout_op (M7.t_out x)
   ++ map SSpend (M7.s_in x) ++ map SOut (M7.s_out x)
   ++ map OSpend (M7.o_in x) ++ map OOut (M7.o_out x)
   ++ map (fun v => ISpend v true) (M7.i_in x) ++ map IOut (M7.i_out x)
@@ -40,12 +42,12 @@ Definition req_of (n : net) (x : M7.txin) (c : M7.config) (b : M7.balance) (rt :
   mkReq n (M7.target_height c) true true true (mkPad false None)
     (mkPad false (if M7.ironwood_is_canonical_crossing x c (M7.final_manifest (M7.change b))
                   then Some 1 else None))
-    [] (ops_of x (M7.change b)) RZip317 rt.
+    [] (ops_of (M7.ephemeral c) x (M7.change b)) RZip317 rt false.
 
 (** What the two models must agree on before they can be compared. *)
 Record compatible (n : net) (x : M7.txin) (c : M7.config) : Prop := {
   k_rule : M7.rule c = M7.standard_rule;
-  k_eph : M7.ephemeral c = None;
+  k_eph : V.C07.Valid.eph_valid c;
   k_stype : M7.s_type x = M7.STx false;
   k_over : M7.cross_enabled (M7.o_ver x) = negb (branch_has_ironwood (branch_at n (M7.target_height c)));
   k_iver : M7.cross_enabled (M7.i_ver x) = true;
@@ -66,11 +68,12 @@ Proof. induction l as [|a l IH]; cbn; [reflexivity|now rewrite IH]. Qed.
 
 Definition vals (p : M7.pool) (chg : list M7.cv) : list Z := map M7.cv_value (filter (M7.is_pool_cv p) chg).
 Definition tvals (chg : list M7.cv) : list Z :=
-  flat_map (fun c => match c with M7.CTransparent v => [v] | _ => [] end) chg.
+  flat_map (fun c => match c with M7.CTransparent v | M7.CEphemeral v => [v] | _ => [] end) chg.
 
 Ltac proj :=
   unfold ops_of; rewrite !flat_map_app, !flat_map_map, flat_map_flat_map;
-  cbn [tin_of tout_of ss_of so_of os_of oo_of oc_of is_of io_of tsh_of tout_op fst snd];
+  try (match goal with |- context [flat_map ?f (ein_ops ?e)] => destruct e as [[?|?]|]; cbn [ein_ops flat_map app] end);
+  cbn [tin_of tout_of ss_of so_of os_of oo_of oc_of is_of io_of tk_of tout_op fst snd];
   rewrite ?flat_map_none, ?flat_map_one, ?app_nil_l, ?app_nil_r.
 
 Lemma chg_so chg : flat_map (fun c => flat_map so_of (cv_ops c)) chg = vals M7.Sapling chg.
@@ -96,46 +99,64 @@ Proof.
   intros H1 H2 H3 H4. induction chg as [|[[]| |] chg IH]; cbn; rewrite ?H1, ?H2, ?H3, ?H4, ?IH; reflexivity.
 Qed.
 
-Lemma p_tin x chg : tin_vs (ops_of x chg) = map (fun i => (fst i, P2PKH_STANDARD_INPUT_SIZE)) (M7.t_in x).
-Proof. unfold tin_vs. proj. rewrite chg_nil2 by reflexivity. now rewrite app_nil_r. Qed.
-Lemma p_tsh x chg : tsh_mn (ops_of x chg) = [].
-Proof. unfold tsh_mn. proj. now rewrite chg_nil2 by reflexivity. Qed.
-Lemma p_tout x chg : tout_vs (ops_of x chg) =
+Definition ein (e : option M7.eph) : list (Z * Z) :=
+  match e with Some (M7.EphIn v) => [(v, P2PKH_STANDARD_INPUT_SIZE)] | _ => [] end.
+
+Lemma p_tin e x chg : tin_vs (ops_of e x chg) =
+  map (fun i => (fst i, P2PKH_STANDARD_INPUT_SIZE)) (M7.t_in x) ++ ein e.
+Proof. unfold tin_vs. proj; rewrite chg_nil2 by reflexivity; now rewrite ?app_nil_r. Qed.
+Lemma chg_nil3 chg : flat_map (fun c => flat_map tk_of (cv_ops c)) chg = [].
+Proof. induction chg as [|[[]| |] chg IH]; cbn; rewrite ?IH; reflexivity. Qed.
+Lemma p_tk e x chg : tkinds (ops_of e x chg) =
+  map (fun _ => KPkh) (M7.t_in x) ++ map (fun _ => KPkh) (ein e).
+Proof. unfold tkinds. proj; rewrite chg_nil3, ?app_nil_r; reflexivity. Qed.
+Lemma sign_check_pkh keys {A B} (l : list A) (l2 : list B) :
+  sign_check true keys (map (fun _ => KPkh) l ++ map (fun _ => KPkh) l2) = Ok tt.
+Proof.
+  induction l; cbn [map sign_check app]; auto. induction l2; cbn [map sign_check]; auto.
+Qed.
+Lemma p_known e x chg : existsb (fun z => z <? 0) (map snd (tin_vs (ops_of e x chg))) = false.
+Proof.
+  rewrite p_tin, map_app, existsb_app, map_map. cbn [snd].
+  assert (A : existsb (fun z => z <? 0) (map (fun _ : Z * M7.tsize => P2PKH_STANDARD_INPUT_SIZE) (M7.t_in x)) = false).
+  { induction (M7.t_in x) as [|i l IH]; [reflexivity|]. cbn [map existsb]. now rewrite IH. }
+  rewrite A. destruct e as [[v|v]|]; reflexivity.
+Qed.
+Lemma p_tout e x chg : tout_vs (ops_of e x chg) =
   map (fun o => (fst o, if snd o =? 32 then 32 else 34)) (M7.t_out x) ++ map (fun v => (v, 34)) (tvals chg).
-Proof. unfold tout_vs. proj. now rewrite chg_tout. Qed.
-Lemma p_ss x chg : ss_vals (ops_of x chg) = M7.s_in x.
-Proof. unfold ss_vals. proj. rewrite chg_nil by reflexivity. now rewrite app_nil_r, map_id. Qed.
-Lemma p_so x chg : so_vals (ops_of x chg) = M7.s_out x ++ vals M7.Sapling chg.
-Proof. unfold so_vals. proj. now rewrite chg_so, map_id. Qed.
-Lemma p_os x chg : os_vals (ops_of x chg) = M7.o_in x.
-Proof. unfold os_vals. proj. rewrite chg_nil by reflexivity. now rewrite app_nil_r, map_id. Qed.
-Lemma p_oo x chg : oo_vals (ops_of x chg) = M7.o_out x.
-Proof. unfold oo_vals. proj. rewrite chg_nil by reflexivity. now rewrite app_nil_r, map_id. Qed.
-Lemma p_oc x chg : oc_vals (ops_of x chg) = vals M7.Orchard chg.
-Proof. unfold oc_vals. proj. now rewrite chg_oc. Qed.
-Lemma p_is x chg : is_vals (ops_of x chg) = M7.i_in x.
-Proof. unfold is_vals. proj. rewrite chg_nil by reflexivity. now rewrite app_nil_r, map_id. Qed.
-Lemma p_io x chg : io_vals (ops_of x chg) = M7.i_out x ++ vals M7.Ironwood chg.
-Proof. unfold io_vals. proj. now rewrite chg_io, map_id. Qed.
+Proof. unfold tout_vs. proj; now rewrite chg_tout. Qed.
+Lemma p_ss e x chg : ss_vals (ops_of e x chg) = M7.s_in x.
+Proof. unfold ss_vals. proj; rewrite chg_nil by reflexivity; now rewrite app_nil_r, map_id. Qed.
+Lemma p_so e x chg : so_vals (ops_of e x chg) = M7.s_out x ++ vals M7.Sapling chg.
+Proof. unfold so_vals. proj; now rewrite chg_so, map_id. Qed.
+Lemma p_os e x chg : os_vals (ops_of e x chg) = M7.o_in x.
+Proof. unfold os_vals. proj; rewrite chg_nil by reflexivity; now rewrite app_nil_r, map_id. Qed.
+Lemma p_oo e x chg : oo_vals (ops_of e x chg) = M7.o_out x.
+Proof. unfold oo_vals. proj; rewrite chg_nil by reflexivity; now rewrite app_nil_r, map_id. Qed.
+Lemma p_oc e x chg : oc_vals (ops_of e x chg) = vals M7.Orchard chg.
+Proof. unfold oc_vals. proj; now rewrite chg_oc. Qed.
+Lemma p_is e x chg : is_vals (ops_of e x chg) = M7.i_in x.
+Proof. unfold is_vals. proj; rewrite chg_nil by reflexivity; now rewrite app_nil_r, map_id. Qed.
+Lemma p_io e x chg : io_vals (ops_of e x chg) = M7.i_out x ++ vals M7.Ironwood chg.
+Proof. unfold io_vals. proj; now rewrite chg_io, map_id. Qed.
 
 (* ------------------------------------------------------------ counts and sums of the change *)
-Definition no_eph (chg : list M7.cv) : Prop := Forall (fun v => S7.is_eph v = false) chg.
 
 Lemma len_vals p chg : len (vals p chg) = M7.count_pool (M7.is_pool_cv p) chg.
 Proof. unfold vals, M7.count_pool, len, M7.len. now rewrite map_length. Qed.
 
-Lemma len_tvals chg : no_eph chg -> len (tvals chg) = M7.count_pool M7.is_transparent_cv chg.
+Lemma len_tvals chg : len (tvals chg) = M7.count_pool M7.is_transparent_cv chg.
 Proof.
-  unfold tvals, M7.count_pool, len, M7.len. induction 1 as [|v chg Hv _ IH]; [reflexivity|].
-  destruct v; cbn in *; try discriminate; rewrite ?app_length; cbn [length]; lia.
+  unfold tvals, M7.count_pool, len, M7.len. induction chg as [|v chg IH]; [reflexivity|].
+  destruct v; cbn in *; rewrite ?app_length; cbn [length]; lia.
 Qed.
 
-Lemma change_total_split chg : no_eph chg ->
+Lemma change_total_split chg :
   S7.change_total chg = zsum (vals M7.Sapling chg) + zsum (vals M7.Orchard chg)
                         + zsum (vals M7.Ironwood chg) + zsum (tvals chg).
 Proof.
-  unfold S7.change_total, vals, tvals. induction 1 as [|v chg Hv _ IH]; [reflexivity|].
-  destruct v as [[] w m|w|w]; cbn in *; try discriminate; unfold zsum, S7.zsum in *;
+  unfold S7.change_total, vals, tvals. induction chg as [|v chg IH]; [reflexivity|].
+  destruct v as [[] w m|w|w]; cbn in *; unfold zsum, S7.zsum in *;
     cbn [fold_right map filter app] in *; lia.
 Qed.
 
@@ -160,21 +181,22 @@ Section Agree.
   Let chg := M7.change b.
   Let br := branch_at n (M7.target_height c).
 
-  Lemma r_ops_eq : r_ops r = ops_of x chg. Proof. reflexivity. Qed.
+  Lemma r_ops_eq : r_ops r = ops_of (M7.ephemeral c) x chg. Proof. reflexivity. Qed.
   Lemma r_not_deferred : is_deferred r = false.
   Proof. unfold is_deferred. subst r. cbn [r_route req_of]. destruct rt; congruence. Qed.
 
   Lemma tin_bytes_agree : zsum (map snd (tin_vs (r_ops r))) = S7.tin_bytes x c.
   Proof.
-    rewrite r_ops_eq, p_tin. unfold S7.tin_bytes. rewrite (k_eph _ _ _ K).
-    pose proof (k_tin _ _ _ K) as F. rewrite Z.add_0_r.
-    induction F as [|i l Hi _ IH]; [reflexivity|].
-    cbn [map]. unfold zsum, S7.zsum in *. cbn [fold_right snd]. rewrite IH, Hi. reflexivity.
+    rewrite r_ops_eq, p_tin, map_app, zsum_app. unfold S7.tin_bytes. f_equal.
+    - pose proof (k_tin _ _ _ K) as F.
+      induction F as [|i l Hi _ IH]; [reflexivity|].
+      cbn [map]. unfold zsum, S7.zsum in *. cbn [fold_right snd]. rewrite IH, Hi. reflexivity.
+    - destruct (M7.ephemeral c) as [[v|v]|]; reflexivity.
   Qed.
 
-  Lemma tout_bytes_agree : no_eph chg -> zsum (map snd (tout_vs (r_ops r))) = S7.tout_bytes x chg.
+  Lemma tout_bytes_agree : zsum (map snd (tout_vs (r_ops r))) = S7.tout_bytes x chg.
   Proof.
-    intros NE. rewrite r_ops_eq, p_tout, map_app, zsum_app, zsum_const_snd, (len_tvals _ NE).
+    rewrite r_ops_eq, p_tout, map_app, zsum_app, zsum_const_snd, len_tvals.
     unfold S7.tout_bytes, C07Consts.P2PKH_STANDARD_OUTPUT_SIZE. f_equal.
     pose proof (k_tout _ _ _ K) as F.
     induction F as [|o l Ho _ IH]; [reflexivity|].
@@ -183,7 +205,6 @@ Section Agree.
   Qed.
 
   Hypothesis DM : S7.dummies_match x c chg (M7.dummies b) = true.
-  Hypothesis NE : no_eph chg.
   Variable hd : ver * Z.
   Hypothesis RO : run_ops r [] (r_ops r) (init_hdr r) 0 = Ok hd.
 
@@ -271,7 +292,7 @@ Section Agree.
   (** the builder asks the ZIP 317 rule about exactly the shape C07 priced *)
   Lemma shape_fee_agree : rule_fee RZip317 (req_shape r) = S7.shape_fee x c chg (M7.dummies b) 0.
   Proof.
-    pose proof counts_agree as CA. pose proof tin_bytes_agree as TI. pose proof (tout_bytes_agree NE) as TO.
+    pose proof counts_agree as CA. pose proof tin_bytes_agree as TI. pose proof tout_bytes_agree as TO.
     unfold S7.shape_fee. destruct (M7.dummies b) as [[sd od] id_].
     destruct CA as (A3 & A4 & A5 & A6).
     cbn [rule_fee]. unfold zip317_fee, zip317_logical, S7.zip317_fee, S7.logical_actions.
@@ -290,12 +311,15 @@ Section Agree.
   Proof.
     intros Cv. unfold S7.conserves in Cv. apply andb_prop in Cv. destruct Cv as [Cv _].
     apply Z.eqb_eq in Cv. unfold S7.total_inputs, S7.payments, S7.eph_in_v in Cv.
-    rewrite (k_eph _ _ _ K) in Cv. fold chg in Cv. rewrite (change_total_split _ NE) in Cv.
+    fold chg in Cv. rewrite change_total_split in Cv.
     unfold requested_balance, tin_vals.
     rewrite r_ops_eq, p_tin, p_tout, p_ss, p_so, p_os, p_oo, p_oc, p_is, p_io.
     rewrite !map_app, !zsum_app, !map_map. cbn [fst].
     rewrite (map_id (tvals chg)).
     change S7.zsum with zsum in Cv.
+    assert (Ee : zsum (map fst (ein (M7.ephemeral c))) = match M7.ephemeral c with Some (M7.EphIn v) => v | _ => 0 end)
+      by (destruct (M7.ephemeral c) as [[v|v]|]; cbn; lia).
+    rewrite Ee.
     change (map (fun x0 : Z * M7.tsize => fst x0) (M7.t_in x)) with (map fst (M7.t_in x)).
     change (map (fun x0 : Z * Z => fst x0) (M7.t_out x)) with (map fst (M7.t_out x)).
     lia.
@@ -314,17 +338,6 @@ Proof.
   intros E. apply Forall_forall. intros a Ha. rewrite <- E in Ha. apply filter_In in Ha. tauto.
 Qed.
 
-Lemma no_eph_of x c b : M7.compute_balance x c = Ok b -> M7.rule c = M7.standard_rule ->
-  M7.ephemeral c = None -> no_eph (M7.change b).
-Proof.
-  intros H R E. apply V.C07.Balance2.compute_ok_facts in H; [|now apply std_rule_pos].
-  destruct H as (nf & ti & so & sin & mf & towmf & tcc & chg & _ & _ & Hch & Hreal & _).
-  unfold V.C07.Balance.eph_list, M7.eph_out_amount in Hch. rewrite E in Hch. rewrite app_nil_r in Hch.
-  rewrite Hch in Hreal. unfold S7.real_change in Hreal. rewrite Hch.
-  apply filter_id_forall in Hreal. unfold no_eph. eapply Forall_impl; [|exact Hreal].
-  intros a Ha. cbn in Ha. now destruct (S7.is_eph a).
-Qed.
-
 Theorem c07_c14_agree n x c b rt hd bal :
   M7.compute_balance x c = Ok b -> compatible n x c -> rt <> Deferred ->
   let r := req_of n x c b rt in
@@ -341,14 +354,13 @@ Theorem c07_c14_agree n x c b rt hd bal :
 Proof.
   intros H K ND r shape_fee RO CV VB Hz Ho.
   pose proof (std_rule_pos _ (k_rule _ _ _ K)) as RP.
-  pose proof (no_eph_of _ _ _ H (k_rule _ _ _ K) (k_eph _ _ _ K)) as NE.
   pose proof (V.C07.Balance.dummy_counts_match_builder _ _ _ H) as DM.
   pose proof (V.C07.Balance.conservation _ _ _ H) as CO.
   pose proof (V.C07.FeeShape.fee_at_least_shape _ _ _ H RP) as FA.
-  assert (EV : V.C07.Valid.eph_valid c) by (unfold V.C07.Valid.eph_valid; now rewrite (k_eph _ _ _ K)).
+  pose proof (k_eph _ _ _ K) as EV.
   pose proof (V.C07.Valid.change_valid_holds _ _ _ H RP EV) as CVd.
-  pose proof (shape_fee_agree n x c b rt K ND DM NE hd RO) as SF. fold r shape_fee in SF.
-  pose proof (balance_agree n x c b rt K DM NE CO) as BA. fold r in BA.
+  pose proof (shape_fee_agree n x c b rt K ND DM hd RO) as SF. fold r shape_fee in SF.
+  pose proof (balance_agree n x c b rt DM CO) as BA. fold r in BA.
   destruct (run_ops_hdr _ _ RO) as (_ & _ & F).
   pose proof (value_balance_exact _ _ F VB) as VE. rewrite BA in VE.
   unfold S7.fee_at_least in FA. apply Z.leb_le in FA. fold shape_fee in FA.
@@ -357,25 +369,29 @@ Proof.
   assert (DR : deferral_refused r = false).
   { unfold deferral_refused, is_deferred. subst r. cbn [req_of r_route]. destruct rt; try reflexivity. congruence. }
   assert (FR : fee_required RZip317 (req_shape r) = Some shape_fee).
-  { unfold fee_required. rewrite SF. replace (shape_fee <=? MAX_MONEY) with true by lia. reflexivity. }
-  assert (TS : tsh_mn (r_ops r) = []) by (subst r; cbn [req_of r_ops]; apply p_tsh).
+  { unfold fee_required, has_unknown_size.
+    change (sh_tin (req_shape r)) with (map snd (tin_vs (ops_of (M7.ephemeral c) x (M7.change b)))). rewrite p_known.
+    rewrite SF. replace (shape_fee <=? MAX_MONEY) with true by lia. reflexivity. }
+  assert (TS : tkinds (r_ops r) = map (fun _ => KPkh) (M7.t_in x) ++ map (fun _ => KPkh) (ein (M7.ephemeral c)))
+    by (subst r; cbn [req_of r_ops]; apply p_tk).
+  assert (NCB : r_coinbase r = false) by reflexivity.
   split; [exact SF|]. split; [exact VE|]. subst bal.
   split; intros Hf.
-  - unfold build. rewrite DR, RO. unfold finish.
+  - unfold build. rewrite DR, RO, NCB. unfold finish.
     change (r_rule r) with RZip317. rewrite FR, CV, VB. rewrite <- Hf.
     replace (M7.fee b - M7.fee b <? - MAX_MONEY) with false by (unfold MAX_MONEY; lia).
     replace (M7.fee b - M7.fee b <? 0) with false by lia.
     replace (0 <? M7.fee b - M7.fee b) with false by lia.
-    rewrite TS. cbn [forallb].
+    rewrite TS.
     assert (Es : e_sap (env_of r) = true).
     { unfold env_of. rewrite (proj1 (Bool.negb_true_iff _) eq_refl) at 1 || idtac.
       unfold is_deferred. subst r. cbn [req_of r_route r_sap e_sap]. destruct rt; try reflexivity. congruence. }
     change (r_route r) with rt. change (r_net r) with n. change (r_height r) with (M7.target_height c).
     destruct rt; try congruence.
-    + rewrite (Ho ltac:(discriminate)). reflexivity.
-    + rewrite (Ho ltac:(discriminate)). reflexivity.
+    + rewrite (Ho ltac:(discriminate)), sign_check_pkh. reflexivity.
+    + rewrite (Ho ltac:(discriminate)), sign_check_pkh. reflexivity.
     + rewrite Es, (Hz eq_refl). reflexivity.
-  - unfold build. rewrite DR, RO. unfold finish.
+  - unfold build. rewrite DR, RO, NCB. unfold finish.
     change (r_rule r) with RZip317. rewrite FR, CV, VB.
     replace (M7.fee b - shape_fee <? - MAX_MONEY) with false by (unfold MAX_MONEY in *; lia).
     replace (M7.fee b - shape_fee <? 0) with false by lia.
@@ -439,12 +455,15 @@ Qed.
 Lemma in_bal_true v : - MAX_MONEY <= v <= MAX_MONEY -> in_bal v = true.
 Proof. unfold in_bal, in_range. lia. Qed.
 
-Record nonneg_tx (x : M7.txin) : Prop := {
+Definition eph_in_val (c : M7.config) : Z := match M7.ephemeral c with Some (M7.EphIn v) => v | _ => 0 end.
+
+Record nonneg_tx (x : M7.txin) (c : M7.config) : Prop := {
   nn_ti : Forall (fun v => 0 <= v) (map fst (M7.t_in x));
   nn_to : Forall (fun v => 0 <= v) (map fst (M7.t_out x));
   nn_si : Forall (fun v => 0 <= v) (M7.s_in x); nn_so : Forall (fun v => 0 <= v) (M7.s_out x);
   nn_oi : Forall (fun v => 0 <= v) (M7.o_in x); nn_oo : Forall (fun v => 0 <= v) (M7.o_out x);
-  nn_ii : Forall (fun v => 0 <= v) (M7.i_in x); nn_io : Forall (fun v => 0 <= v) (M7.i_out x) }.
+  nn_ii : Forall (fun v => 0 <= v) (M7.i_in x); nn_io : Forall (fun v => 0 <= v) (M7.i_out x);
+  nn_eph : 0 <= eph_in_val c }.
 
 Lemma vals_nonneg p chg : Forall (fun v => 0 <= M7.cv_value v) chg -> Forall (fun v => 0 <= v) (vals p chg).
 Proof.
@@ -454,61 +473,71 @@ Qed.
 Lemma tvals_nonneg chg : Forall (fun v => 0 <= M7.cv_value v) chg -> Forall (fun v => 0 <= v) (tvals chg).
 Proof.
   unfold tvals. induction 1 as [|v l Hv _ IH]; cbn [flat_map]; [constructor|].
-  destruct v; cbn [app]; auto.
+  destruct v; cbn [app M7.cv_value] in *; auto.
 Qed.
 
 (** With non-negative amounts, the builder's checked sums cannot fail on a request derived from a
     successful proposal: every partial sum is bounded by the proposal's input total. *)
 Theorem value_balance_ok n x c b rt :
-  M7.compute_balance x c = Ok b -> compatible n x c -> rt <> Deferred -> nonneg_tx x ->
+  M7.compute_balance x c = Ok b -> compatible n x c -> rt <> Deferred -> nonneg_tx x c ->
   exists bal, value_balance (req_of n x c b rt) = Ok bal.
 Proof.
   intros H K ND NN.
   pose proof (std_rule_pos _ (k_rule _ _ _ K)) as RP.
-  pose proof (no_eph_of _ _ _ H (k_rule _ _ _ K) (k_eph _ _ _ K)) as NE.
-  assert (EV : V.C07.Valid.eph_valid c) by (unfold V.C07.Valid.eph_valid; now rewrite (k_eph _ _ _ K)).
+  pose proof (k_eph _ _ _ K) as EV.
   pose proof (V.C07.Valid.change_valid_holds _ _ _ H RP EV) as CVd.
+  pose proof (V.C07.Balance.conservation _ _ _ H) as CO.
   apply V.C07.Balance2.compute_ok_facts in H; [|exact RP].
-  destruct H as (nf & ti & so & sin & mf & towmf & tcc & chg0 & St & FS & Hch & _ & _ & _ & Cons & _ & _ & Hti & _).
-  destruct St as [_ Sti Sso _ _ _ _]. apply V.C07.Inv.total_in_ok in Sti. apply V.C07.Inv.total_out_ok in Sso.
-  destruct Sti as [Eti _]. destruct Sso as [Eso Rso].
-  destruct FS as [F1 F2 F3 F4 F5 F6 F7 F8 FR].
-  rewrite (k_eph _ _ _ K) in F1, F2. cbn [M7.eph_in_amount M7.eph_out_amount S7.opt_z] in F1, F2.
-  unfold V.C07.Balance.eph_list, M7.eph_out_amount in Hch. rewrite (k_eph _ _ _ K), app_nil_r in Hch. subst chg0.
-  rewrite (change_total_split _ NE) in Cons.
+  destruct H as (nf & ti & so & sin & mf & towmf & tcc & chg0 & St & FS & _ & _ & _ & _ & _ & _ & _ & Hti & _).
+  destruct St as [_ Sti _ _ _ _ _]. apply V.C07.Inv.total_in_ok in Sti. destruct Sti as [Eti _].
+  destruct FS as [F1 _ F3 _ F5 _ F7 _ _].
+  unfold S7.conserves in CO. apply andb_prop in CO. destruct CO as [CO _]. apply Z.eqb_eq in CO.
+  unfold S7.total_inputs, S7.payments, S7.eph_in_v in CO. rewrite change_total_split in CO.
+  assert (E1 : S7.opt_z (M7.eph_in_amount (M7.ephemeral c)) = eph_in_val c).
+  { unfold eph_in_val. destruct (M7.ephemeral c) as [[v|v]|]; reflexivity. }
+  rewrite E1 in F1.
+  assert (E2 : match M7.ephemeral c with Some (M7.EphIn v) => v | _ => 0 end = eph_in_val c) by reflexivity.
+  rewrite E2 in CO.
   unfold S7.change_valid in CVd. rewrite !andb_true_iff in CVd. destruct CVd as ((CV1 & F0) & _).
   apply Z.leb_le in F0.
   assert (CN : Forall (fun v => 0 <= M7.cv_value v) (M7.change b)).
   { rewrite forallb_forall in CV1. apply Forall_forall. intros v Hv. specialize (CV1 v Hv). lia. }
   pose proof (vals_nonneg M7.Sapling _ CN) as N1. pose proof (vals_nonneg M7.Orchard _ CN) as N2.
   pose proof (vals_nonneg M7.Ironwood _ CN) as N3. pose proof (tvals_nonneg _ CN) as N4.
-  destruct NN as [A1 A2 A3 A4 A5 A6 A7 A8].
+  destruct NN as [A1 A2 A3 A4 A5 A6 A7 A8 A9].
   pose proof (zsum_nonneg _ N1). pose proof (zsum_nonneg _ N2). pose proof (zsum_nonneg _ N3). pose proof (zsum_nonneg _ N4).
   pose proof (zsum_nonneg _ A1). pose proof (zsum_nonneg _ A2). pose proof (zsum_nonneg _ A3). pose proof (zsum_nonneg _ A4).
   pose proof (zsum_nonneg _ A5). pose proof (zsum_nonneg _ A6). pose proof (zsum_nonneg _ A7). pose proof (zsum_nonneg _ A8).
   change S7.zsum with zsum in *. change M7.A.MAX_MONEY with MAX_MONEY in *.
-  assert (Total : zsum (map fst (M7.t_in x)) + zsum (M7.s_in x) + zsum (M7.o_in x) + zsum (M7.i_in x) <= MAX_MONEY)
+  assert (Total : zsum (map fst (M7.t_in x)) + eph_in_val c + zsum (M7.s_in x) + zsum (M7.o_in x) + zsum (M7.i_in x) <= MAX_MONEY)
     by (clear - Eti F1 F3 F5 F7 Hti; lia).
   assert (Conserve : zsum (map fst (M7.t_out x)) + zsum (M7.s_out x) + zsum (M7.o_out x) + zsum (M7.i_out x)
                      + zsum (vals M7.Sapling (M7.change b)) + zsum (vals M7.Orchard (M7.change b))
                      + zsum (vals M7.Ironwood (M7.change b)) + zsum (tvals (M7.change b)) + M7.fee b
-                     = zsum (map fst (M7.t_in x)) + zsum (M7.s_in x) + zsum (M7.o_in x) + zsum (M7.i_in x))
-    by (clear - Eti Eso F1 F2 F3 F4 F5 F6 F7 F8 Cons; lia).
-  clear Eti Eso F1 F2 F3 F4 F5 F6 F7 F8 FR Cons Hti Rso CV1 RP EV NE CN.
+                     = zsum (map fst (M7.t_in x)) + eph_in_val c + zsum (M7.s_in x) + zsum (M7.o_in x) + zsum (M7.i_in x))
+    by (clear - CO; lia).
+  clear Eti F1 F3 F5 F7 CO Hti CV1 RP EV CN E1 E2.
   set (r := req_of n x c b rt).
   assert (Es : e_sap (env_of r) = true).
-  { unfold env_of, is_deferred. subst r. cbn [req_of r_route r_sap e_sap]. destruct rt; try reflexivity. congruence. }
+  { unfold env_of, is_deferred. subst r. cbn [req_of r_route r_sap r_coinbase e_sap]. destruct rt; try reflexivity. congruence. }
   unfold value_balance. rewrite Es. unfold tin_vals, sapling_balance.
-  change (r_ops r) with (ops_of x (M7.change b)).
+  change (r_ops r) with (ops_of (M7.ephemeral c) x (M7.change b)).
   rewrite p_tin, p_tout, p_ss, p_so, p_os, p_oo, p_oc, p_is, p_io.
   rewrite !map_app, !map_map. cbn [fst].
   change (map (fun x0 : Z * M7.tsize => fst x0) (M7.t_in x)) with (map fst (M7.t_in x)).
   change (map (fun x0 : Z * Z => fst x0) (M7.t_out x)) with (map fst (M7.t_out x)).
   rewrite (map_id (tvals (M7.change b))).
-  rewrite (zat_sum_ok (map fst (M7.t_in x))) by (auto; lia).
+  assert (EI : map fst (ein (M7.ephemeral c)) = match M7.ephemeral c with Some (M7.EphIn v) => [v] | _ => [] end)
+    by (destruct (M7.ephemeral c) as [[v|v]|]; reflexivity).
+  assert (EIs : zsum (map fst (ein (M7.ephemeral c))) = eph_in_val c)
+    by (unfold eph_in_val; destruct (M7.ephemeral c) as [[v|v]|]; cbn; lia).
+  assert (EIn : Forall (fun v => 0 <= v) (map fst (ein (M7.ephemeral c)))).
+  { unfold eph_in_val in A9. destruct (M7.ephemeral c) as [[v|v]|]; cbn; auto. }
+  rewrite (zat_sum_ok (map fst (M7.t_in x) ++ map fst (ein (M7.ephemeral c))))
+    by (first [apply Forall_app; split; assumption | rewrite ?zsum_app; lia]).
   rewrite (zat_sum_ok (map fst (M7.t_out x) ++ tvals (M7.change b)))
     by (first [apply Forall_app; split; assumption | rewrite ?zsum_app; lia]).
-  rewrite !zsum_app.
+  rewrite !zsum_app. rewrite EIs.
   rewrite in_bal_true by lia. cbn [negb].
   destruct (e_orc (env_of r)); destruct (e_iw (env_of r));
     rewrite ?orchard_balance_ok
@@ -518,7 +547,7 @@ Qed.
 
 (** The agreement without assuming anything about the builder's arithmetic. *)
 Corollary c07_c14_build n x c b rt hd :
-  M7.compute_balance x c = Ok b -> compatible n x c -> rt <> Deferred -> nonneg_tx x ->
+  M7.compute_balance x c = Ok b -> compatible n x c -> rt <> Deferred -> nonneg_tx x c ->
   let r := req_of n x c b rt in
   let shape_fee := S7.shape_fee x c (M7.change b) (M7.dummies b) 0 in
   run_ops r [] (r_ops r) (init_hdr r) 0 = Ok hd ->
